@@ -1203,8 +1203,8 @@ class Take(Op):
     def gen(self, g):
         rng = g.rng
         from vlib.c07_gen import is_sparse
-        fn = rng.random() < .35
-        x = g.operand('bifc', ndim=(1, 3), need_array=True, prefer=is_sparse if fn else None)
+        fn = g.force_fn or rng.random() < .35
+        x = g.operand('bifc', ndim=(1, 3), need_array=True, prefer=is_sparse if fn else None, p_fresh=0. if g.force_fn else .18)
         nd = len(x.shape)
         form = rng.choice(['func', 'func', 'kw', 'flat'])
         if form == 'flat':
@@ -1309,8 +1309,8 @@ class GetItem(Op):
     def gen(self, g, hostile=None):
         rng = g.rng
         from vlib.c07_gen import is_sparse
-        use_array = rng.random() < .4
-        x = g.operand('bifc', ndim=(2, 3) if hostile == 'multi_array' else (1, 3) if hostile or rng.random() < .95 else (0, 0), need_array=True, prefer=is_sparse if use_array else None)
+        use_array = g.force_fn or rng.random() < .4
+        x = g.operand('bifc', ndim=(2, 3) if hostile == 'multi_array' else (1, 3) if hostile or rng.random() < .95 else (0, 0), need_array=True, prefer=is_sparse if use_array else None, p_fresh=0. if g.force_fn else .18)
         nd = len(x.shape)
         ids = [x.id]
         naxes = int(rng.integers(1, nd + 1)) if nd else 0      # number of axes addressed explicitly
@@ -1322,7 +1322,7 @@ class GetItem(Op):
         for ax in range(naxes):
             n = x.shape[ax]
             if use_array and ax == apos:
-                if hostile != 'multi_array' and rng.random() < .3:
+                if hostile != 'multi_array' and (g.force_fn or rng.random() < .3):
                     inode = g.index_node(n, shape=[(), (2,), (2, 2)][int(rng.integers(3))] if rng.random() < .7 else None)
                     if inode is not None:
                         ids.append(inode.id)
